@@ -1,13 +1,13 @@
 use alloc::alloc::{Allocator, Global, Layout};
 use alloc::vec;
 use core::mem::{self, MaybeUninit};
-use core::ptr;
+use core::ptr::{self, NonNull};
 
 #[cfg(doc)]
 use crate::adopt::Adopt;
 use crate::hash::HashMap;
 use crate::link::{Kind, Link};
-use crate::rc::RcInnerPtr;
+use crate::rc::{RcBox, RcInnerPtr};
 use crate::Rc;
 
 unsafe impl<#[may_dangle] T> Drop for Rc<T> {
@@ -155,6 +155,42 @@ unsafe impl<#[may_dangle] T> Drop for Rc<T> {
             debug!("cactusref drop skipped, Rc is reachable");
         }
     }
+}
+
+/// Remove the allocation behind `ptr` from the adoption graph and destroy its
+/// link table.
+///
+/// This is used by `Rc::try_unwrap` and `Rc::make_mut` when they move the
+/// value out of an allocation that only `Weak`s keep alive afterwards. Such
+/// an allocation never goes through `Rc::drop`, so without this step other
+/// `Rc`s would keep links that point to it (and `Drop` would dereference them
+/// after the allocation is gone) and its link table would be leaked.
+///
+/// The adoptions of the moved value are forgotten, which can only leak.
+///
+/// # Safety
+///
+/// The `links` field of the `RcBox` must be inhabited and must not be used
+/// again after this call.
+pub(crate) unsafe fn unlink<T>(ptr: NonNull<RcBox<T>>) {
+    let forward = Link::forward(ptr);
+    let backward = Link::backward(ptr);
+    let rcbox = ptr.as_ptr();
+    {
+        let links = (*rcbox).links();
+        for (item, &strong) in links.borrow().iter() {
+            // self adoptions are destroyed together with the table below.
+            if ptr::eq(rcbox, item.as_ptr()) {
+                continue;
+            }
+            let mut links = item.as_ref().links().borrow_mut();
+            links.remove(forward, strong);
+            links.remove(backward, strong);
+        }
+    }
+    // Move the links `HashMap` out of the `RcBox` and destroy it.
+    let links = mem::replace(&mut (*rcbox).links, MaybeUninit::uninit());
+    drop(links.assume_init());
 }
 
 unsafe fn drop_unreachable<T>(this: &mut Rc<T>) {
